@@ -478,11 +478,19 @@ def _oracle_hist(case):
     """every step is judged, on the shared objects, in script order (module-level state is shared across the steps)"""
     fails = []
     if case["script"] == "aut":
+        from synkit.Graph.Matcher.auto_est import AutoEst
         G = GG.to_nx(case["g"])
+        E_old = AutoEst(G).fit()
         for k, (st, g) in enumerate(zip(case["steps"], hist_graphs(case))):
             _edit_nx(G, st.get("edit", []))
             for f in _oracle_aut_g(g, st.get("nk"), G=G):
                 fails.append(dict(f, detail="step %d: %s" % (k, f["detail"])))
+            col = E_old.fit().node_colors            # an estimator object that existed before the edit, fitted again
+            for o in _true_orbits(g, lambda a: (a.get("element"), a.get("charge"))):
+                if len({col.get(n) for n in o}) != 1:
+                    fails.append(dict(clause="wl-coarser", detail="step %d: re-fitted estimator: true orbit %r gets WL colours %r"
+                                                                  % (k, o, [col.get(n) for n in o])))
+                    break
     elif case["script"] == "prune":
         for k, st in enumerate(case["steps"]):
             for f in _oracle_prune(st):
@@ -553,6 +561,8 @@ def coq_case(case):
     if k == "aut":
         if not _in_domain(case["g"]):
             return None
+        if len(case["g"]["nodes"]) > 12 and _mono_cost(case["g"], _lab_a, lambda a: GG.half(a["order"]), 8 * MONO_BUDGET) > 8 * MONO_BUDGET:
+            return None          # >= 100 atoms: the verified enumerator is quadratic per search node; oracle only
         return "run_aut_wf %s" % _coq_graph(case["g"])
     if k == "dedup":
         if not (_in_domain(case["p"]) and _in_domain(case["h"])):
